@@ -291,6 +291,45 @@ def reads (c : PassClass) : List String → HState → List (String × Res) × H
 def session (c : PassClass) (given order : List String) : List (String × Res) × HState :=
   reads c order { dict := given, cache := [], contour := Option.none }
 
+/-! life cycle "dimensioned late": a pass constructed WITHOUT any member (a stand taken from a catalogue), looked at from
+    outside while its opening is still undetermined (every failing look is caught by the caller, like the reads above),
+    and only then given one member by assignment (`rp.gap = …` = `Hook.__set__`: an entry of `__dict__`, nothing else) -/
+
+/-- one look at a pass object from outside: a hook read, or the property `contour_lines` -/
+inductive Probe where
+  | hook (n : String)
+  | contour
+  deriving Repr, DecidableEq, Inhabited
+
+def Probe.name : Probe → String
+  | .hook n => n
+  | .contour => "contour_lines"
+
+def probe (c : PassClass) (p : Probe) (st : HState) : Res × HState :=
+  match p with
+  | .hook n => run c fuel0 (.read n) st
+  | .contour => run c fuel0 .contour st
+
+def probes (c : PassClass) : List Probe → HState → List (String × Res) × HState
+  | [], st => ([], st)
+  | p :: ps, st =>
+    let r := probe c p st
+    let rest := probes c ps r.2
+    ((p.name, r.1) :: rest.1, rest.2)
+
+/-- the pass object straight after `__init__` without members -/
+def bare : HState := { dict := [], cache := [], contour := Option.none }
+
+/-- `setattr(rp, g, value)` for every `g` of `given` -/
+def assign (given : List String) (st : HState) : HState := { st with dict := st.dict ++ given }
+
+/-- looks at the bare pass, then the assignment, then the reads of `order`; answers of the looks and of the reads -/
+def lateSession (c : PassClass) (looks : List Probe) (given order : List String) :
+    List (String × Res) × List (String × Res) × HState :=
+  let l := probes c looks bare
+  let r := reads c order (assign given l.2)
+  (l.1, r.1, r.2)
+
 /-! ### Part 3: giving the symbolic results a value (used by the Float driver; the theorems state the same link as hypotheses) -/
 
 section value
